@@ -1,5 +1,5 @@
 """
-Correspondence group `manifest` (property C17):
+Correspondence group `manifest` (properties C17 and, for the phantom accounting of the two format modules, C08):
   shangrla.formats.Dominion / shangrla.formats.Hart :: prep_manifest, sample_from_manifest, sample_from_cvrs
   vs. Shangrla.Manifest.{prepManifest, prepRows, entry, sampleFromManifest, sampleFromCvrs}.
 
@@ -7,6 +7,9 @@ The implementation side builds real pandas DataFrames with the vendor's column n
 tests/formats/test_Dominion.py and test_Hart.py do), calls the real `prep_manifest`, then the real lookup
  (a) once per number of `all` (= 0 .. max_cards+1: the whole valid range and both out-of-range ends), and
  (b) once on `sample`.
+A case may carry "index": the row labels of the incoming DataFrame (a 1-based index, the labels left after rows
+were filtered out before preparation, a permuted index, repeated labels of concatenated manifests).  Nothing in the
+documented interface needs the default 0..n-1 index (every lookup is positional), and the model has no index.
 """
 import itertools, math
 from ..core import impl_call, err_kind
@@ -18,7 +21,8 @@ RULE = ("three kinds of case, both vendors: `manifest` = 1-8 batches of sizes 0-
         "one by one plus a random sample in random order (some with repeats, some with an out-of-range number); "
         "`cvrs` = the same manifests with a CVR list (one CVR per listed card, phantom CVRs `phantom-1-k`, some "
         "malformed ids / unknown batches / out-of-range indices) through sample_from_cvrs; `prep` = size column and "
-        "bounds only. non-trivial = prep succeeded and at least one card was looked up, or prep refused; "
+        "bounds only; the incoming DataFrame carries the default index or (2 in 5) a 1-based / filtered (rows dropped "
+        "before preparation) / permuted / repeated-label index. non-trivial = prep succeeded and at least one card was looked up, or prep refused; "
         "distinct = distinct canonical input")
 EXHAUSTIVE = {"quick": False, "thorough": False}
 
@@ -36,9 +40,13 @@ def mk_rows(vendor, sizes, rng=None, style="int"):
             tab, batch = 10 + i // 3, 100 + i
         elif style == "str":
             tab, batch = f"T{i // 2}", f"B{i}"
+        elif style == "names":      # named tabulators / carts / trays, numbered batches
+            tab, batch = f"T{i // 2}", i + 1
         else:  # same tabulator everywhere, batches 1..n (the Hart test's layout)
             tab, batch = 1, i + 1
         extra = [1 + i // 4, i + 1] if vendor == "dominion" else [("Mail" if i % 2 == 0 else "EV")]
+        if style in ("str", "names") and vendor == "dominion":
+            extra = [f"C{1 + i // 4}", f"Y{i + 1}"]      # cart / tray names (a manifest read with dtype=str)
         rows.append({"tab": tab, "batch": batch, "size": int(sz), "extra": extra})
     return rows
 
@@ -66,6 +74,12 @@ def corpus():
                     "n_cvrs": 5, "all": all_range(9), "sample": []})          # too many CVRs
         out.append({"kind": "prep", "vendor": v, "sizes": [4, 0, 1], "max_cards": 5, "n_cvrs": 5})
         out.append({"kind": "prep", "vendor": v, "sizes": [4, 0, 1], "max_cards": 1000, "n_cvrs": 0})
+    # a manifest whose DataFrame does not carry the default index (an empty first batch filtered out: labels 1..3;
+    # a permuted index), phantom batch needed
+    for v in ("dominion", "hart"):
+        for idx in ([1, 2, 3], [2, 0, 1]):
+            out.append({"kind": "manifest", "vendor": v, "rows": mk_rows(v, [5, 3, 4], style="names"), "max_cards": 15,
+                        "n_cvrs": 12, "all": all_range(15), "sample": [3, 14, 9], "index": idx})
     out.append(cvr_case("dominion", [2, 0, 3], 7, None, sample=[0, 4, 6, 2], style="int"))
     out.append(cvr_case("hart", [2, 0, 3], 7, None, sample=[0, 4, 6, 2], style="one"))
     return out
@@ -145,10 +159,37 @@ def rand_sample(rng, vendor, M):
     return [int(x) for x in s]
 
 
+def rand_index(rng, n):
+    """row labels of the incoming DataFrame (None = the default 0..n-1)"""
+    u = rng.random()
+    if u < 0.6 or n == 0:
+        return None
+    if u < 0.70:
+        return list(range(1, n + 1))                                  # 1-based
+    if u < 0.82:
+        k = rng.choice([1, 1, 2, 3])
+        return list(range(k, n + k))                                  # leading rows dropped before preparation
+    if u < 0.90:
+        return sorted(rng.sample(range(0, n + rng.randint(1, 3)), n))  # rows dropped anywhere
+    if u < 0.96:
+        lab = list(range(n)); rng.shuffle(lab)                        # permuted (sort_values)
+        return lab
+    a = rng.randint(1, n)
+    return list(range(a)) + list(range(n - a))                        # concatenated manifests: repeated labels
+
+
+def with_index(rng, case):
+    n = len(case["rows"]) if "rows" in case else len(case["sizes"])
+    idx = rand_index(rng, n)
+    if idx is not None:
+        case["index"] = idx
+    return case
+
+
 def manifest_case(rng, vendor, sizes, style=None):
     T = sum(sizes)
     M, c = rand_bounds(rng, T)
-    style = style or rng.choice(["int", "int", "str", "one"])
+    style = style or rng.choice(["int", "int", "str", "one", "names"])
     return {"kind": "manifest", "vendor": vendor, "rows": mk_rows(vendor, sizes, style=style), "max_cards": M,
             "n_cvrs": c, "all": all_range(M), "sample": rand_sample(rng, vendor, M)}
 
@@ -189,7 +230,7 @@ def gen(rng, n, tier):
         for vendor in ("dominion", "hart"):
             if count >= n:
                 break
-            yield manifest_case(rng, vendor, v)
+            yield with_index(rng, manifest_case(rng, vendor, v))
             count += 1
     # (2) random
     while count < n:
@@ -198,19 +239,19 @@ def gen(rng, n, tier):
         T = sum(sizes)
         u = rng.random()
         if u < 0.55:
-            yield manifest_case(rng, vendor, sizes)
+            yield with_index(rng, manifest_case(rng, vendor, sizes))
         elif u < 0.90:
             M = T + rng.choice([0, 0, 1, 2, 4])
-            style = rng.choice(["int", "str"]) if vendor == "dominion" else rng.choice(["int", "str", "one"])
+            style = rng.choice(["int", "str", "names"]) if vendor == "dominion" else rng.choice(["int", "str", "one"])
             c = cvr_case(vendor, sizes, M, rng, style=style, drop=rng.choice([0, 0, 0, 1, 2]))
             if rng.chance(0.3):
                 c = malform(rng, c)
-            yield c
+            yield with_index(rng, c)
         else:
             M, c = rand_bounds(rng, T)
             if rng.chance(0.3):
                 M, c = M * rng.choice([1, 10, 1000]), c
-            yield {"kind": "prep", "vendor": vendor, "sizes": sizes, "max_cards": M, "n_cvrs": c}
+            yield with_index(rng, {"kind": "prep", "vendor": vendor, "sizes": sizes, "max_cards": M, "n_cvrs": c})
         count += 1
 
 
@@ -226,7 +267,21 @@ def cell(x):
     return str(x)
 
 
-def frame(vendor, rows):
+def frame(vendor, rows, index=None):
+    """the incoming DataFrame.  `index` = its row labels: strictly increasing non-negative labels are produced the way
+    an auditor would, by building the longer raw manifest and filtering rows out with a boolean mask; any other label
+    list is assigned to `.index`"""
+    if index is not None and len(index) == len(rows) and rows:
+        lab = [int(x) for x in index]
+        if all(a < b for a, b in zip(lab, lab[1:])) and lab[0] >= 0:
+            filler = dict(rows[0], size=0)
+            it = iter(rows)
+            raw = [next(it) if k in set(lab) else filler for k in range(lab[-1] + 1)]
+            df = frame(vendor, raw)
+            return df[[k in set(lab) for k in range(lab[-1] + 1)]].copy()
+        df = frame(vendor, rows)
+        df.index = lab
+        return df
     import pandas as pd
     if vendor == "dominion":
         d = [{"Tray #": r["extra"][1], "Tabulator Number": r["tab"], "Batch Number": r["batch"],
@@ -258,11 +313,11 @@ def canon_frame(vendor, m):
     return rows
 
 
-def do_prep(vendor, rows, max_cards, n_cvrs):
+def do_prep(vendor, rows, max_cards, n_cvrs, index=None):
     """-> (canonical prep result, prepared frame or None)"""
     V = vendor_cls(vendor)
     try:
-        m, mc, ph = V.prep_manifest(frame(vendor, rows), max_cards, n_cvrs)
+        m, mc, ph = V.prep_manifest(frame(vendor, rows, index), max_cards, n_cvrs)
     except Exception as e:  # noqa
         return {"st": "err", "err": err_kind(e)}, None
     return {"st": "ok", "rows": canon_frame(vendor, m), "cum": [int(x) for x in m["cum_cards"]],
@@ -291,12 +346,12 @@ def impl(case):
     V = vendor_cls(vendor)
     if case["kind"] == "prep":
         rows = mk_rows(vendor, case["sizes"])
-        p, _ = do_prep(vendor, rows, case["max_cards"], case["n_cvrs"])
+        p, _ = do_prep(vendor, rows, case["max_cards"], case["n_cvrs"], case.get("index"))
         if p["st"] == "ok":
             return {"st": "ok", "sizes": [r["size"] for r in p["rows"]], "manifest_cards": p["manifest_cards"],
                     "phantoms": p["phantoms"], "tabs": [r["tab"] for r in p["rows"]]}
         return p
-    p, m = do_prep(vendor, case["rows"], case["max_cards"], case["n_cvrs"])
+    p, m = do_prep(vendor, case["rows"], case["max_cards"], case["n_cvrs"], case.get("index"))
     if m is None:
         return {"st": "ok", "prep": p}
     if case["kind"] == "manifest":
@@ -403,7 +458,7 @@ def signature(case, ir):
         why = "big" if T > case["max_cards"] else ("cvrs" if T < case["n_cvrs"] else "other")
         return f"{case['kind']}/{v};prep-err:{p['err']}:{why}"
     s = ir["sample"]
-    tag = "phantom" if p["phantoms"] else "exact"
+    tag = ("phantom" if p["phantoms"] else "exact") + (";idx" if case.get("index") is not None else "")
     z = "zeros" if 0 in sizes else "nozeros"
     if not case["sample"] and case["max_cards"] == 0:
         return "trivial:no-cards"
@@ -550,4 +605,77 @@ def oracle_c17(case, ir):
     return None
 
 
-ORACLES = {"C17": oracle_c17}
+def oracle_c08(case, ir):
+    """the part of C08 that lives in the two format modules, on the implementation's own output: after the phantom
+    batch is created the prepared manifest accounts for exactly the stratum's card bound (real cards first and
+    unchanged, no more phantoms than the shortfall), and a phantom manual record -- flagged phantom, no votes,
+    identifiers distinct -- is returned exactly for the cards of the phantom batch / the phantom CVRs drawn.
+    Refusals (manifest above the bound or below the number of CVRs) and the card lookup itself are C17's."""
+    if ir.get("st") != "ok" and case["kind"] != "prep":
+        return {"what": f"harness-level exception {ir.get('err')}: {ir.get('msg')}"}
+    vendor = case["vendor"]
+    sizes = list(case["sizes"]) if case["kind"] == "prep" else [r["size"] for r in case["rows"]]
+    p = ir if case["kind"] == "prep" else ir["prep"]
+    T, M, c = sum(sizes), case["max_cards"], case["n_cvrs"]
+    if T > M or T < c:
+        return None                 # outside C08's quantifier (bounds >= the number of records)
+    if p["st"] != "ok":
+        return {"what": f"{vendor}: phantom creation in prep_manifest raised {p['err']} "
+                        f"(batch sizes {sizes}, max_cards {M}, n_cvrs {c}, index {case.get('index')})"}
+    out = p["sizes"] if "sizes" in p else [r["size"] for r in p["rows"]]
+    if sum(out) != M or ("cum" in p and (p["cum"][-1] if p["cum"] else 0) != M):
+        return {"what": f"{vendor}: after phantom creation the manifest accounts for {sum(out)} cards "
+                        f"(cum_cards ends at {p['cum'][-1] if p.get('cum') else None}); the card bound is {M} "
+                        f"(batch sizes {sizes}, n_cvrs {c})"}
+    if p["phantoms"] != M - T or sum(out[len(sizes):]) != M - T:
+        return {"what": f"{vendor}: {p['phantoms']} phantoms reported, phantom batch of {sum(out[len(sizes):])} cards; "
+                        f"the shortfall is max_cards - cards listed = {M} - {T} = {M - T} (n_cvrs {c})"}
+    if out[: len(sizes)] != sizes:
+        return {"what": f"{vendor}: the listed batches do not come back unchanged and first: {out} from {sizes}"}
+    if case["kind"] == "prep":
+        return None
+    n_real = len(case["rows"])
+    if case["kind"] == "manifest":
+        prows = p["rows"]
+        labels = [(r["tab"], r["batch"]) for r in prows]
+        if len(set(labels)) != len(labels):
+            return None
+        row_of = {l: i for i, l in enumerate(labels)}
+        lo, hi = (1, M) if vendor == "dominion" else (0, M - 1)
+        by_s = dict(zip(case["all"], ir["lookup"]))
+        ph_ids = []
+        for s_ in range(lo, hi + 1):
+            L = by_s.get(s_)
+            if L is None or L["st"] != "ok":
+                continue            # the lookup is C17's
+            k = row_of.get((L["tab"], L["batch"]))
+            if k is None:
+                continue
+            in_ph = k >= n_real
+            if bool(L["_phantoms"]) != in_ph or (in_ph and not L["_phantoms_ok"]):
+                return {"what": f"{vendor}: card number {s_} lies {'in' if in_ph else 'outside'} the phantom batch but "
+                                f"the phantom manual records returned for it are {L['_phantoms']}"
+                                + ("" if L["_phantoms_ok"] else " (not flagged phantom / carrying votes)")}
+            ph_ids += L["_phantoms"]
+        if len(by_s) >= hi - lo + 1 and all(by_s[s_]["st"] == "ok" for s_ in range(lo, hi + 1)):
+            if len(ph_ids) != M - T or len(set(ph_ids)) != len(ph_ids):
+                return {"what": f"{vendor}: drawing every card {lo}..{hi} gives {len(ph_ids)} phantom manual records "
+                                f"({len(set(ph_ids))} distinct ids); the shortfall is {M - T}"}
+        smp, sample = ir["sample"], case["sample"]
+        if smp["st"] == "ok" and all(lo <= s_ <= hi and by_s[s_]["st"] == "ok" for s_ in sample):
+            want = [by_s[s_]["id"] for s_ in sample
+                    if row_of.get((by_s[s_]["tab"], by_s[s_]["batch"]), -1) >= n_real]
+            if smp["phantoms"] != want or not smp["_phantoms_ok"]:
+                return {"what": f"{vendor}: phantom manual records {smp['phantoms']} for the sample {sample}; the cards "
+                                f"drawn from the phantom batch are {want}"}
+        return None
+    smp, sample, cvrs = ir["sample"], case["sample"], case["cvrs"]
+    if not case.get("wellformed") or any(s_ >= len(cvrs) for s_ in sample) or smp["st"] != "ok":
+        return None
+    want = [cvrs[s_]["id"] for s_ in sample if cvrs[s_]["phantom"]]
+    if smp["phantoms"] != want or not smp["_phantoms_ok"]:
+        return {"what": f"{vendor}: phantom manual records {smp['phantoms']}, phantom CVRs drawn {want}"}
+    return None
+
+
+ORACLES = {"C17": oracle_c17, "C08": oracle_c08}
